@@ -211,6 +211,8 @@ def arch_label(case):
         lab.append("rescaled")
     if case.get("unitaries"):
         lab.append("user_unitaries")
+    if case.get("large"):
+        lab.append("large(beyond-box)")
     return lab
 
 
